@@ -101,6 +101,9 @@ pub enum Call {
     NestRecursive { k: u8, inner: Box<Call> },
 }
 
+/// marker with which a call reports that its result with a nested call differs from the flat equivalent
+const NESTED_MISMATCH: &str = "NESTED-VS-FLAT-MISMATCH";
+
 pub const BASIC: [Call; 56] = [
     Call::SerYaml12 { on: true },
     Call::SerYaml12 { on: false },
@@ -536,11 +539,40 @@ pub fn run_call(c: &Call) -> String {
                 d: RcAnchor(s2),
             };
             let opts = serde_saphyr::ser_options! { anchor_generator: Some(|id| format!("node{id}")) };
-            match guard(|| serde_saphyr::to_string_with_options(&o, opts)) {
+            let nested = match guard(|| serde_saphyr::to_string_with_options(&o, opts)) {
                 Ok(Ok(t)) => t,
                 Ok(Err(e)) => format!("SerErr({e})"),
                 Err(a) => format!("{a:?}"),
+            };
+            // the same document with the inner text computed beforehand: no call nested in the outer one
+            #[derive(Serialize)]
+            struct Flat {
+                a: RcAnchor<String>,
+                n: String,
+                b: RcAnchor<String>,
+                c: RcAnchor<String>,
+                d: RcAnchor<String>,
             }
+            let inner_text = {
+                let shared = std::rc::Rc::new("inner".to_string());
+                serde_saphyr::to_string(&vec![RcAnchor(shared.clone()), RcAnchor(shared)]).unwrap_or_default()
+            };
+            let f1 = std::rc::Rc::new("outer".to_string());
+            let f2 = std::rc::Rc::new("second".to_string());
+            let flat_doc = Flat {
+                a: RcAnchor(f1.clone()),
+                n: inner_text,
+                b: RcAnchor(f1),
+                c: RcAnchor(f2.clone()),
+                d: RcAnchor(f2),
+            };
+            let opts = serde_saphyr::ser_options! { anchor_generator: Some(|id| format!("node{id}")) };
+            let flat = match guard(|| serde_saphyr::to_string_with_options(&flat_doc, opts)) {
+                Ok(Ok(t)) => t,
+                Ok(Err(e)) => format!("SerErr({e})"),
+                Err(a) => format!("{a:?}"),
+            };
+            if nested == flat { nested } else { format!("{NESTED_MISMATCH} nested={nested:?} flat={flat:?}") }
         }
         Call::ReaderUtf16Capped | Call::ReaderTinyCapped => {
             let (bytes, cap): (Vec<u8>, usize) = if matches!(c, Call::ReaderUtf16Capped) {
@@ -1064,6 +1096,14 @@ pub fn exec(c: &HistoryCase, st: &mut Stats) -> Vec<Viol> {
         }
         for (ci, (call, own, inner)) in o.results.iter().enumerate() {
             st.note(own);
+            if own.contains(NESTED_MISMATCH) {
+                out.push(Viol {
+                    property: "C15".into(),
+                    clause: "nested-call-changes-outer-result".into(),
+                    detail: format!("thread {ti} call {ci} {}: {own}", short_call(call)),
+                    case: Case::C15(c.clone()),
+                });
+            }
             st.bump(&format!("call.{}", call_name(call)));
             let mut check = |what: &str, call: &Call, got: &str| {
                 match isolated(call) {
